@@ -16,3 +16,58 @@ func thmInvolution(s []byte) {
 	//@ assert forall j int :: 0 <= j && j < len(s) ==> b[j] == s[j]
 	_ = b
 }
+
+//@ theorem C13.unpackPack
+//@   props C13
+// DNATo2Bit(DNAFrom2Bit(p)) == p for every byte string p.
+func thmUnpackPack(p []byte) {
+	d := DNAFrom2Bit(nil, p)
+	q := DNATo2Bit(nil, d)
+	//@ assert len(q) == len(p)
+	//@ assert forall j int :: 0 <= j && j < len(p) ==> q[j] == p[j]
+	_ = q
+}
+
+//@ theorem C13.packUnpack
+//@   props C13
+//@   requires forall j int :: 0 <= j && j < len(s) ==> isACGT(s[j])
+// DNAFrom2Bit(DNATo2Bit(s)) is the upper-case form of s followed only by 'A' padding up to a multiple of four.
+func thmPackUnpack(s []byte) {
+	p := DNATo2Bit(nil, s)
+	d := DNAFrom2Bit(nil, p)
+	//@ assert len(d) == (len(s)+3)/4*4
+	//@ assert forall j int :: 0 <= j && j < len(s) ==> d[j] == upper(s[j])
+	//@ assert forall j int :: len(s) <= j && j < len(d) ==> d[j] == 'A'
+	_ = d
+}
+
+//@ theorem C13.ntoiIton
+//@   props C13
+// Ntoi and Iton are mutually inverse on the four bases.
+func thmNtoiIton(n int, b byte) {
+	if 0 <= n && n <= 3 {
+		m := Ntoi(Iton(n))
+		//@ assert m == n
+		_ = m
+	}
+	if b == 'A' || b == 'C' || b == 'G' || b == 'T' {
+		c := Iton(Ntoi(b))
+		//@ assert c == b
+		_ = c
+	}
+}
+
+//@ theorem C14.concat
+//@   props C14
+//@   requires len(a) % 3 == 0 && len(b) % 3 == 0
+//@   requires forall j int :: 0 <= j && j < len(a) ==> isACGT(a[j])
+//@   requires forall j int :: 0 <= j && j < len(b) ==> isACGT(b[j])
+// Translating a concatenation equals concatenating the translations.
+func thmTranslateConcat(a, b []byte) {
+	ab := append(append([]byte{}, a...), b...)
+	t := Translate(nil, ab)
+	u := Translate(Translate(nil, a), b)
+	//@ assert len(t) == len(u)
+	//@ assert forall q int :: 0 <= q && q < len(t) ==> t[q] == u[q]
+	_, _ = t, u
+}
